@@ -103,8 +103,10 @@ impl<'a, const N: usize> Iterator for GroupedListValuesIter<'a, N> {
                 break Some((value, self.grouping_values));
             }
 
-            let idx = self.grouping_tags.iter().position(|t| t == tag).unwrap();
-            self.grouping_values[idx] = value;
+            // The server may send tags that were not asked for, which are not part of any group
+            if let Some(idx) = self.grouping_tags.iter().position(|t| t == tag) {
+                self.grouping_values[idx] = value;
+            }
         }
     }
 }
